@@ -270,6 +270,9 @@ def run(chk, F, tier):
     time_of_week(chk, F)
     counters(chk, F)
     day_of_year(chk, F)
+    # the year whose start is the day-of-year origin is the year of the epoch in its own scale (same evaluation as C09.R5)
+    from .c09 import r5_accessors
+    r5_accessors(chk, F, rule="C20.R3", which=(("year", 0),))
     eng, D = ctx(F)
     chk.extra["engine_stats"] = dict(eng.stats)
     chk.assumptions.append("to_time_of_week: epochs at or after the scale's reference (centuries >= 0), as the statement says")
